@@ -59,11 +59,12 @@ fn dname(d: &Direction) -> &'static str {
 /// `steps` symbolic swaps from an arbitrary reserve pair; the last `full` steps are explored
 /// exhaustively, the earlier ones follow the seeded witness (an open region of inputs)
 fn seq(decimals: u8, steps: Vec<(Kind, Direction)>, fluct_sym: bool, full_from: usize, seeds: Vec<u128>) -> impl Fn() {
-    seq_r(decimals, steps, fluct_sym, full_from, seeds, false)
+    seq_r(decimals, steps, fluct_sym, full_from, seeds, 0)
 }
 
-/// `reopen`: between the swaps the owner closes the market and opens it again
-fn seq_r(decimals: u8, steps: Vec<(Kind, Direction)>, fluct_sym: bool, full_from: usize, seeds: Vec<u128>, reopen: bool) -> impl Fn() {
+/// `between`: 1 = between the swaps the owner closes the market and opens it again; 2 = the owner
+/// re-points the margin_engine setting at another account and back
+fn seq_r(decimals: u8, steps: Vec<(Kind, Direction)>, fluct_sym: bool, full_from: usize, seeds: Vec<u128>, between: u8) -> impl Fn() {
     move || {
         let d = pow10(decimals);
         let mut w = vamm_only(decimals, fluct_sym, VAR_MAX);
@@ -97,11 +98,18 @@ fn seq_r(decimals: u8, steps: Vec<(Kind, Direction)>, fluct_sym: bool, full_from
             hist.push(post);
             if i + 1 < steps.len() {
                 w.next_block(15);
-                if reopen {
+                if between == 1 {
                     symrt::set_full(false);
                     w.vamm_exec(OWNER, 0, &VammExec::SetOpen { open: false });
                     w.next_block(15);
                     w.vamm_exec(OWNER, 0, &VammExec::SetOpen { open: true });
+                }
+                if between == 2 {
+                    symrt::set_full(false);
+                    for to in [EVE, OWNER] {
+                        let m = VammExec::UpdateConfig { base_asset_holding_cap: None, open_interest_notional_cap: None, toll_ratio: None, spread_ratio: None, fluctuation_limit_ratio: None, margin_engine: Some(to.into()), insurance_fund: None, pricefeed: None, spot_price_twap_interval: None };
+                        w.vamm_exec(OWNER, 0, &m);
+                    }
                 }
             }
         }
@@ -140,7 +148,9 @@ pub fn scenarios(seed: u64) -> Vec<Scenario> {
     }
     for (a, b) in [((Input, AddToAmm), (Output, AddToAmm)), ((Output, RemoveFromAmm), (Input, AddToAmm))] {
         let name = format!("c01.two.reopen.{}{}-{}{}", kname(a.0), dname(&a.1), kname(b.0), dname(&b.1));
-        v.push(sc("C01", Tier::Quick, &name, "two swaps with the market closed and re-opened by the owner in between (SetOpen false / true); second swap explored exhaustively", 300, 240, seq_r(9, vec![a, b], false, 1, vec![s1, s2], true)));
+        v.push(sc("C01", Tier::Quick, &name, "two swaps with the market closed and re-opened by the owner in between (SetOpen false / true); second swap explored exhaustively", 300, 240, seq_r(9, vec![a.clone(), b.clone()], false, 1, vec![s1, s2], 1)));
+        let name = format!("c01.two.engine-switch.{}{}-{}{}", kname(a.0), dname(&a.1), kname(b.0), dname(&b.1));
+        v.push(sc("C01", Tier::Quick, &name, "two swaps; in between the owner re-points the vAMM's margin_engine setting at another account and back", 300, 240, seq_r(9, vec![a, b], false, 1, vec![s1, s2], 2)));
     }
     // thorough: both steps exhaustive, and three-step sequences
     for (a, b) in [((Input, AddToAmm), (Output, AddToAmm)), ((Output, RemoveFromAmm), (Input, AddToAmm)), ((Input, RemoveFromAmm), (Input, AddToAmm)), ((Output, AddToAmm), (Output, RemoveFromAmm))] {
